@@ -1219,7 +1219,8 @@ package restful
 //@ uses B/C05.rank-range
 //@ uses B/C05.rank-order
 //@ uses B/C05.rank-pos
-//@ opt opaque rkSrc rkPos rkLen rkLow rQ rParsed rMedia tParsed tQ tMedia
+//@ uses B/C05.admitted-useful
+//@ opt opaque rkSrc rkPos rkLen rkLow rQ rParsed rMedia tParsed tQ tMedia admitIdx acceptAdmits
 //@ requires r != nil && ghostInt("lock.ptr", entityAccessRegistry.protection) >= 0
 //@ requires registered: allRegistered(entityAccessRegistry, r.routeProduces)
 //@ modifies nothing
@@ -1228,6 +1229,8 @@ package restful
 //@ ensures B/best: forall(0, rangeCount(r.requestAccept), func(j int) bool { return rangeBest(r.requestAccept, r.routeProduces, j) ==> result1 && result0 == entityAccessRegistry.accessors[chosenMedia(r.routeProduces, rMedia(r.requestAccept, j))] })
 //@ ensures B/never406: forall(0, rangeCount(r.requestAccept), func(j int) bool { return rangeUseful(r.requestAccept, r.routeProduces, j) ==> result1 })
 //@ ensures fallback: len(r.routeProduces) > 0 && DefaultResponseMimeType == "" ==> result1
+// ... in particular when the router admitted the request on Accept grounds (matchesAccept, C01) and the range it accepted has a usable weight
+//@ ensures B/admitted: acceptAdmits(r.routeProduces, r.requestAccept) && len(r.routeProduces) > 0 && !inList(r.routeProduces, "*/*") && rParsed(r.requestAccept, admitIdx(r.routeProduces, r.requestAccept)) ==> result1
 //@ loop 0 invariant B/none: forall(0, it_i, func(k int) bool { return !mediaUseful(r.routeProduces, sorted[k].media) })
 //@ loop 1 invariant forall(0, it_i, func(k int) bool { return r.routeProduces[k] != sorted[it_o].media })
 //@ loop 2 invariant it_i == 0
@@ -1317,6 +1320,154 @@ package restful
 //@ forall e string
 //@ ensures left: tMedia(" "+e) == tMedia(e) && tParsed(" "+e) == tParsed(e) && tQ(" "+e) == tQ(e)
 //@ ensures right: tMedia(e+" ") == tMedia(e) && tParsed(e+" ") == tParsed(e) && tQ(e+" ") == tQ(e)
+
+// strings.Split never returns an empty list (by course-of-values induction over the length of the string)
+//@ lemma C05.split-count-pos
+//@ props C05
+//@ forall s string, n int
+//@ induction n strong
+//@ requires len(s) == n
+//@ ensures model_splitCount(s, ",") >= 1
+//@ trigger model_splitCount(s, ",")
+
+// the router's admission (matchesAccept == acceptAdmits, C01) names a range: the first range it accepts
+//@ lemma C05.admit-idx
+//@ props C05
+//@ uses C05.split-count-pos
+//@ forall P []string, h string, n int
+//@ induction n strong
+//@ opt opaque rangeAdmitsAccept
+//@ requires def.n: n == len(h)
+//@ requires acceptAdmits(P, h)
+//@ trigger acceptAdmits(P, h)
+//@ ensures lo: 0 <= admitIdx(P, h)
+//@ ensures hi: admitIdx(P, h) < model_splitCount(h, ",")
+//@ ensures admits: rangeAdmitsAccept(P, model_splitPart(h, ",", admitIdx(P, h)))
+
+// the router reads the media type of a range as Trim(before the first ";"), the entity writer as
+// Trim(before the first ";" of the trimmed range): the same text (string lemmas by induction over the length)
+//@ lemma C05.tl-idem
+//@ props C05
+//@ forall s string, n int
+//@ induction n strong
+//@ requires def.n: n == len(s)
+//@ ensures model_strings_TrimLeft(model_strings_TrimLeft(s, " "), " ") == model_strings_TrimLeft(s, " ")
+//@ trigger model_strings_TrimLeft(s, " ")
+
+//@ lemma C05.tr-idem
+//@ props C05
+//@ forall s string, n int
+//@ induction n strong
+//@ requires def.n: n == len(s)
+//@ ensures model_strings_TrimRight(model_strings_TrimRight(s, " "), " ") == model_strings_TrimRight(s, " ")
+//@ trigger model_strings_TrimRight(s, " ")
+
+//@ lemma C05.tr-prefix
+//@ props C05
+//@ forall s string, n int
+//@ induction n strong
+//@ requires def.n: n == len(s)
+//@ ensures strings.HasPrefix(s, model_strings_TrimRight(s, " "))
+//@ trigger model_strings_TrimRight(s, " ")
+
+//@ lemma C05.semi-shift
+//@ props C05
+//@ forall s string
+//@ requires len(s) >= 1 && s[:1] == " "
+//@ ensures beforeSemi(s) == " " + beforeSemi(s[1:])
+
+//@ lemma C05.semi-drop
+//@ props C05
+//@ forall s string
+//@ requires len(s) >= 1 && s[len(s)-1:] == " " && strings.Contains(s, ";")
+//@ ensures beforeSemi(s[:len(s)-1]) == beforeSemi(s) && strings.Contains(s[:len(s)-1], ";")
+
+//@ lemma C05.semi-left
+//@ props C05
+//@ uses C05.semi-shift
+//@ opt opaque beforeSemi
+//@ forall s string, n int
+//@ induction n strong
+//@ requires def.n: n == len(s)
+//@ ensures model_strings_TrimLeft(beforeSemi(s), " ") == model_strings_TrimLeft(beforeSemi(model_strings_TrimLeft(s, " ")), " ")
+//@ trigger beforeSemi(s)
+
+//@ lemma C05.semi-right
+//@ props C05
+//@ uses C05.semi-drop
+//@ opt opaque beforeSemi
+//@ forall s string, n int
+//@ induction n strong
+//@ requires def.n: n == len(s)
+//@ requires strings.Contains(s, ";")
+//@ ensures beforeSemi(model_strings_TrimRight(s, " ")) == beforeSemi(s)
+//@ trigger beforeSemi(s)
+
+//@ lemma C05.media-def
+//@ props C05
+//@ forall rng string
+//@ ensures mediaOf(rng) == model_strings_Trim(beforeSemi(rng), " ")
+
+// what TrimLeft leaves does not start with a space
+//@ lemma C05.tl-head
+//@ props C05
+//@ forall s string, n int
+//@ induction n strong
+//@ requires def.n: n == len(s)
+//@ ensures model_strings_TrimLeft(s, " ") == "" || model_strings_TrimLeft(s, " ")[:1] != " "
+//@ trigger model_strings_TrimLeft(s, " ")
+
+// trimming the range first does not change the media type: with a ";" the text before it is untouched by
+// trimming the right end; without one, trimming is idempotent
+//@ lemma C05.media-trim-semi
+//@ props C05
+//@ uses C05.semi-left
+//@ uses C05.semi-right
+//@ forall rng string
+//@ opt opaque model_strings_TrimLeft model_strings_TrimRight beforeSemi
+//@ requires strings.Contains(model_strings_TrimLeft(rng, " "), ";")
+//@ ensures model_strings_Trim(beforeSemi(rng), " ") == model_strings_Trim(beforeSemi(model_strings_Trim(rng, " ")), " ")
+
+//@ lemma C05.tl-of-tr
+//@ props C05
+//@ uses C05.tr-prefix
+//@ uses C05.tl-head
+//@ forall rng string
+//@ opt opaque model_strings_TrimRight
+//@ ensures model_strings_TrimLeft(model_strings_TrimRight(model_strings_TrimLeft(rng, " "), " "), " ") == model_strings_TrimRight(model_strings_TrimLeft(rng, " "), " ")
+
+//@ lemma C05.media-trim-plain
+//@ props C05
+//@ uses C05.tl-idem
+//@ uses C05.tr-idem
+//@ uses C05.tr-prefix
+//@ uses C05.semi-left
+//@ uses C05.tl-of-tr
+//@ forall rng string
+//@ opt opaque model_strings_TrimLeft model_strings_TrimRight
+//@ requires !strings.Contains(model_strings_TrimLeft(rng, " "), ";")
+//@ ensures model_strings_Trim(beforeSemi(rng), " ") == model_strings_Trim(beforeSemi(model_strings_Trim(rng, " ")), " ")
+
+//@ lemma C05.media-same
+//@ props C05
+//@ uses C05.media-def
+//@ uses C05.media-trim-semi
+//@ uses C05.media-trim-plain
+//@ opt opaque mediaOf model_strings_TrimLeft model_strings_TrimRight
+//@ forall rng string
+//@ ensures mediaOf(rng) == tMedia(rng)
+
+// C05: "a request the router admitted on Accept grounds": the range the router accepted is one the entity
+// writer can answer
+//@ lemma C05.admitted-useful
+//@ props C05
+//@ uses C05.admit-idx
+//@ uses C05.media-same
+//@ forall P []string, h string
+//@ opt opaque admitIdx acceptAdmits mediaOf tMedia model_splitPart model_splitCount
+//@ requires acceptAdmits(P, h) && len(P) > 0 && !inList(P, "*/*")
+//@ ensures 0 <= admitIdx(P, h) && admitIdx(P, h) < rangeCount(h) && mediaUseful(P, rMedia(h, admitIdx(P, h)))
+//@ trigger acceptAdmits(P, h)
 
 //@ lemma C05.rank-range
 //@ props C05
@@ -1889,6 +2040,17 @@ package restful
 
 // ---------------------------------------------------------------------------
 // how a routing error reaches the client (C02): the default handler sends the error's own status
+
+// the target of the error chain: a routing error reaches the configured service-error handler, with the request
+// and response of the chain, exactly once; any other error value is answered by nothing (C02)
+//@ func (*Container).dispatch$4
+//@ props C02 C17
+//@ requires c != nil && c.serviceErrorHandleFunc != nil
+//@ modifies cb(req), cb(resp), headers, ghost $trace, ghost $g.wstatus, ghost $g.whcalls, ghost $g.accepted, ghost $g.lasterr, ghost $g.wcalls
+//@ callsite ServiceErrorHandleFunction handler: same(callee, c.serviceErrorHandleFunc)
+//@ callsite ServiceErrorHandleFunction routed: same(arg0, err.(ServiceError))
+//@ callsite ServiceErrorHandleFunction pair: arg1 == req && arg2 == resp
+//@ callsite ServiceErrorHandleFunction first: calls() == old(calls())
 
 //@ func (*Response).WriteErrorString
 //@ props C02 C15
